@@ -107,7 +107,7 @@ func plan(prop, tier string, ncpu int, budgetOverride float64) *propPlan {
 				{{engine: "enum", workers: ncpu, budgetS: b(240, 3000), runs: 1 << 40, mustDone: true}},
 				{{engine: "hist", workers: max(1, ncpu-4), budgetS: b(30, 700), runs: 1 << 40}, {engine: "conc", workers: min(4, ncpu), budgetS: b(30, 700), runs: 1 << 40}},
 			},
-			rule:   "Evaluations are simulated runs: (1) three enumerations, complete over their finite spaces in every run (every proper prefix and every single-byte substitution of seeded valid document/patch/merge-patch texts, every ordered pair of a pool of small values, operation templates), each variant fed to every entry point of v5 and of the legacy package; (2) seeded sequential histories and (3) concurrent schedules over generated awkward-but-valid and corrupted inputs (torn, flipped byte, dropped/duplicated/swapped chunk, zero-filled range, spliced). Invariant: no call panics, exceeds its step budget (3*10^6 + 40*n^2 logical steps for n input bytes) or deadlocks - whether run alone or inside the history/schedule with recycled pool state. Non-trivial = the scenario passes at least one corrupted or awkward input to an entry point; distinct = distinct hash over calls with their argument texts and options.",
+			rule:   "Evaluations are simulated runs: (1) enumerations, complete over their finite spaces in every run (every proper prefix, every single-byte substitution and every insertion from a small alphabet in seeded valid document/patch/merge-patch texts; every ordered pair of a pool of small values; operation templates; all ordered pairs of 160 operations around the empty reference token; put-then-use operation pairs under every copy-limit / negative-index configuration; extreme and oddly spelled array indices; runs of malformed UTF-8; nesting near the limits; all three-call histories over the hist3 pool), each variant fed to every entry point of v5 and of the legacy package; (2) seeded sequential histories and (3) concurrent schedules over generated awkward-but-valid and corrupted inputs (torn, flipped byte, dropped/duplicated/swapped chunk, zero-filled range, spliced). Invariant: no call panics, exceeds its step budget (3*10^6 + 40*n^2 logical steps for n input bytes) or deadlocks - whether run alone or inside the history/schedule with recycled pool state. Non-trivial = the scenario passes at least one corrupted or awkward input to an entry point; distinct = distinct hash over calls with their argument texts and options.",
 			assume: []string{"stated-domain exclusions honoured by construction: options are never nil, Patch values come only from DecodePatch, generated indices stay <= 2000", "a hang is defined as exceeding a quadratic step bound in the input size; slow-but-polynomial behaviour on deeply nested input is not reported", "memory exhaustion and stack overflow beyond nesting 10^4 are not reachable (Go offers no allocation-failure seam)"}}
 	case "C10":
 		return &propPlan{level: "exploration", real: append(commonReal, "the Go race detector (predictive use on a serialised execution: the simulator adds no happens-before edges of its own)"), stub: commonStub,
